@@ -46,8 +46,7 @@ Proof.
   unfold rod_half_axis, trace3. cbv zeta.
   set (rx := rod_diag_root ROps (a00 p)) in *. set (ry0 := rod_diag_root ROps (a11 p)) in *.
   set (rz0 := rod_diag_root ROps (a22 p)) in *. clearbody rx ry0 rz0.
-  destruct (nltb ROps (a01 p) (n0 ROps)); destruct (nltb ROps (a02 p) (n0 ROps));
-  match goal with |- context [if ?b then _ else _] => destruct b end; vunf; nra.
+  repeat match goal with |- context [if ?b then _ else _] => destruct b end; vunf; nra.
 Qed.
 
 Lemma inv_defined m : proper m -> exists v, rodrigues_inv_of_proj ROps m = Some v.
@@ -188,4 +187,46 @@ Proof.
     replace ((s - - s) * (s - - s) + (0 - 0) * (0 - 0) + (0 - 0) * (0 - 0)) with ((2 * s) * (2 * s)) by ring.
     rewrite sqrt_square by lra. field.
   - destruct (proper_facts _ Hp) as (_ & _ & _ & Hic). rewrite Hic. unfold trace3, rot_x; cbn [a00 a11 a22]. field.
+Qed.
+
+(* ---- the numeric step of the zero zone: sin t < 1e-5 forces t < 1.00002e-5 ------------------------------------- *)
+Lemma sin_ge_cubic a : 0 <= a <= PI -> a - a * a * a / 6 <= sin a.
+Proof.
+  intros [H0 H1]. pose proof (sin_bound a 0 H0 H1) as [Hl _].
+  unfold sin_approx, sin_term in Hl. cbn [sum_f_R0 Nat.mul Nat.add pow fact INR] in Hl.
+  simpl in Hl. lra.
+Qed.
+
+(* sin t < 1e-5 and 0 < t < PI/2 force t < 1.1e-5 *)
+Lemma small_sine_small_angle t e : 0 < t < PI / 2 -> 0 < e <= 1 / 10000 -> sin t < e -> t <= e * (1 + e).
+Proof.
+  intros [Ht0 Ht1] [He0 He1] Hs. pose proof PI_4 as Hpi.
+  pose proof (sin_ge_cubic t ltac:(lra)) as Hc.
+  assert (Ht2 : t < 2) by lra.
+  (* first a crude bound: t^3/6 <= t * 4/6 *)
+  assert (H3 : t <= 3 * e) by nra.
+  (* then the sharp one *)
+  assert (t * t <= 9 * e * e) by nra.
+  nra.
+Qed.
+
+Lemma inv_of_fwd_zero_zone_full proj r : proj_ok proj -> 0 < vnorm ROps r < PI / 2 ->
+  sin (vnorm ROps r) < rod_small ROps ->
+  rodrigues_inv ROps proj (rodrigues_fwd ROps r) = Some (vzero ROps) /\
+  vnorm ROps (vsub ROps (vzero ROps) r) <= rod_small ROps * (1 + rod_small ROps) /\
+  rod_small ROps * (1 + rod_small ROps) < 25 / 1000000.
+Proof.
+  intros Hp [H0 H1] Hs. pose proof PI_RGT_0 as Hpi.
+  assert (Hsm : 0 < rod_small ROps <= 1 / 10000) by (unfold rod_small, nfrac; rops; lra).
+  split; [|split].
+  - destruct (Rlt_le_dec (vnorm ROps r) (rod_eps ROps)) as [He|He].
+    + rewrite fwd_small by exact He.
+      apply (inv_zero_zone proj _ Hp proper_I3).
+      * rewrite rod_inv_s_sym by reflexivity. lra.
+      * destruct (proper_facts _ proper_I3) as (_ & _ & _ & Hic). rewrite Hic. unfold trace3; munf. lra.
+    + apply inv_of_fwd_zero_zone; [exact Hp | lra | exact Hs | apply cos_gt_0; lra].
+  - replace (vnorm ROps (vsub ROps (vzero ROps) r)) with (vnorm ROps r).
+    + apply small_sine_small_angle; [lra | exact Hsm | exact Hs].
+    + unfold vnorm. f_equal. destruct r; vunf. ring.
+  - unfold rod_small, nfrac; rops. lra.
 Qed.
